@@ -48,11 +48,19 @@ type UDPNet struct {
 	Seed  uint64
 	socks map[string]*UDPSock
 	paths map[string]*UDPPath // by alias string and by natSrc string
-	Paths []*UDPPath
+	// routes: by (origin socket, alias) - several origins may reach different targets
+	// under the same alias (whole-application worlds); consulted before paths
+	routes map[udpRoute]*UDPPath
+	Paths  []*UDPPath
+}
+
+type udpRoute struct {
+	origin *UDPSock
+	alias  string
 }
 
 func NewUDPNet(seed uint64) *UDPNet {
-	return &UDPNet{Seed: seed, socks: map[string]*UDPSock{}, paths: map[string]*UDPPath{}}
+	return &UDPNet{Seed: seed, socks: map[string]*UDPSock{}, paths: map[string]*UDPPath{}, routes: map[udpRoute]*UDPPath{}}
 }
 
 func (n *UDPNet) NewSock(addr *net.UDPAddr) *UDPSock {
@@ -68,10 +76,13 @@ func (n *UDPNet) AddPath(origin, target *UDPSock, p *UDPPath) {
 	n.mu.Lock()
 	defer n.mu.Unlock()
 	idx := len(n.Paths)
-	p.natSrc = &net.UDPAddr{IP: net.IPv4(10, 0, 3, byte(idx+1)), Port: origin.addr.Port}
+	p.natSrc = &net.UDPAddr{IP: net.IPv4(10, byte(idx>>8), 3, byte(idx+1)), Port: origin.addr.Port}
 	p.target, p.origin = target, origin
 	p.sent = map[string]int{}
-	n.paths[p.Alias.String()] = p
+	if _, taken := n.paths[p.Alias.String()]; !taken {
+		n.paths[p.Alias.String()] = p
+	}
+	n.routes[udpRoute{origin, p.Alias.String()}] = p
 	n.paths[p.natSrc.String()] = p
 	n.Paths = append(n.Paths, p)
 }
@@ -107,7 +118,10 @@ func (s *UDPSock) WriteTo(b []byte, addr net.Addr) (int, error) {
 	n := s.net
 	cp := append([]byte(nil), b...)
 	n.mu.Lock()
-	p := n.paths[addr.String()]
+	p := n.routes[udpRoute{s, addr.String()}]
+	if p == nil {
+		p = n.paths[addr.String()]
+	}
 	if p == nil {
 		n.mu.Unlock()
 		return len(b), nil // no route: silently dropped, like UDP
@@ -194,6 +208,21 @@ func (s *UDPSock) SetReadDeadline(t time.Time) error {
 	return nil
 }
 func (s *UDPSock) SetWriteDeadline(t time.Time) error { return nil }
+
+// the rest of what the product uses of *net.UDPConn (verifsim.UDPConn)
+func (s *UDPSock) WriteToUDP(b []byte, addr *net.UDPAddr) (int, error) { return s.WriteTo(b, addr) }
+func (s *UDPSock) ReadFromUDP(b []byte) (int, *net.UDPAddr, error) {
+	n, a, err := s.ReadFrom(b)
+	ua, _ := a.(*net.UDPAddr)
+	return n, ua, err
+}
+func (s *UDPSock) SetReadBuffer(int) error  { return nil }
+func (s *UDPSock) SetWriteBuffer(int) error { return nil }
+func (s *UDPSock) Closed() bool {
+	s.mu.Lock()
+	defer s.mu.Unlock()
+	return s.closed
+}
 
 // SetBlackhole switches a path's blackholing on or off while a run is going on.
 func (n *UDPNet) SetBlackhole(p *UDPPath, on bool) {
